@@ -236,7 +236,28 @@ func checkSession(prop string) func(c SessCase, st *stats.Collector) error {
 			}
 			return info, nil
 		}
+		stepHeld := func() error {
+			// the kept iterators are live: each of them is advanced by one message between any two calls
+			for _, h := range held {
+				if h.done {
+					continue
+				}
+				sc, ch, m, err := h.it.NextInto(nil)
+				if err != nil {
+					h.done = true
+					if !errors.Is(err, io.EOF) {
+						return pk.Failf("session-read", "%s, advanced between other calls (%s): %v after %d items", h.label, history, err, len(h.items))
+					}
+					continue
+				}
+				h.items = append(h.items, mc.Triple{S: mc.FromSchema(sc), C: mc.FromChannel(ch), M: mc.FromMessage(m)})
+			}
+			return nil
+		}
 		for i, op := range c.Ops {
+			if err := stepHeld(); err != nil {
+				return err
+			}
 			switch op.Kind {
 			case "info":
 				if _, err := getInfo(fmt.Sprintf("call #%d", i)); err != nil {
